@@ -7,7 +7,8 @@
 Require Import ZArith List Lia Bool.
 Import ListNotations.
 Local Open Scope Z_scope.
-From EphVerif Require Import lib.Bytes model.ManifestTtlModel proofs.ManifestTtlProofs.
+From EphVerif Require Import lib.Bytes model.ManifestTtlModel proofs.ManifestTtlProofs proofs.ManifestFetchProofs.
+From EphVerif Require model.FetchModel proofs.FetchProofs proofs.FetchDropProofs.
 
 (* for every manifest expiry, arrival time, window and advertised TTL, on all three paths: every deadline created is no later
    than the manifest's expiry and no later than now + max *)
@@ -28,10 +29,37 @@ Theorem c03_accepted_lifetime : forall E now mn mx, 0 < mn <= mx -> now < E -> m
   manifest_ttl E now mn mx = Some (Z.min ((E - now) / ns) mx).
 Proof. exact accepted_lifetime. Qed.
 
+(* pending fetches.  An announce that assigns this node a shard creates a pending fetch (FetchModel); when the manifest is
+   refused nothing is scheduled, and whatever the retry back-off and however far the clock moves, the fetch is gone after a
+   tick at or after the manifest's expiry *)
+Theorem c03_refused_announce_schedules_nothing : forall E now mn mx backoff dt,
+  manifest_ttl E now mn mx = None -> announce_fetch E now mn mx backoff dt = (false, false, false, -1).
+Proof. exact refused_announce_schedules_nothing. Qed.
+Theorem c03_assigned_fetch_dropped_at_expiry : forall E now mn mx backoff dt, E <> 0 -> 0 <= dt -> E <= now + dt * 1000000 ->
+  snd (fst (announce_fetch E now mn mx backoff dt)) = false.
+Proof. exact assigned_fetch_dropped_at_expiry. Qed.
+Print Assumptions c03_assigned_fetch_dropped_at_expiry.
+(* the scheduler theorem behind it, for every history of announcements, arrivals, disconnects, ticks and clock movements from
+   any consistent state: after a tick no fetch is left whose manifest (expiry `expires chunk`; 0 = none) has run out --
+   whether it was waiting for a retry, in flight, or ready *)
+Theorem c03_no_fetch_outlives_its_manifest : forall c expires ops sn,
+  FetchProofs.Inv c (fst sn) -> FetchDropProofs.ExpOK expires (fst sn) ->
+  let sn' := FetchModel.run_ops c expires sn ops in
+  forall f, In f (FetchModel.fetches (fst (fst (FetchModel.step c expires sn' FetchModel.Tick)))) ->
+    expires (FetchModel.f_chunk f) = 0 \/ snd sn' < expires (FetchModel.f_chunk f).
+Proof. exact FetchDropProofs.tick_drops_expired. Qed.
+Print Assumptions c03_no_fetch_outlives_its_manifest.
+
 (* non-vacuity: window (30 s, 6 h); a manifest with 100.5 s left, announced with an advertised TTL of one day; one with 29.9 s
    left; one in the far future *)
 Example c03_examples :
   (announce (100500 * 1000000) 0 30 21600 86400, ingest (29900 * 1000000) 0 30 21600, receive (10 ^ 15) 0 30 21600)
   = (mkDerived true (Some (100 * ns)) None (Some (100 * ns)), nothing,
      mkDerived true (Some (21600 * ns)) (Some (21600 * ns)) None).
+Proof. vm_compute. reflexivity. Qed.
+(* window (1 s, 1 day), manifest expires 10 s from now, back-off 30 s: a fetch is pending after the announce; a tick 9.999 s
+   later still finds it waiting (20.001 s to go), a tick 10 s later does not *)
+Example c03_fetch_examples :
+  (announce_fetch (1010 * ns) (1000 * ns) 1 86400 30 9999, announce_fetch (1010 * ns) (1000 * ns) 1 86400 30 10000)
+  = ((true, true, true, 20001), (true, true, false, -1)).
 Proof. vm_compute. reflexivity. Qed.
